@@ -34,6 +34,9 @@ def instantiate(
             f"Too many inputs: got {len(inputs)}, "
             f"but graph has {len(formal_inputs)} parameters."
         )
+    # A formal parameter without an actual is an omitted (trailing) optional input,
+    # exactly as for a call node with fewer inputs than the function has parameters.
+    inputs = [*inputs, *([None] * (len(formal_inputs) - len(inputs)))]
     value_map: dict[ir.Value, ir.Value | None] = dict(zip(formal_inputs, inputs))
 
     def rename(node: ir.Node) -> None:
